@@ -1,4 +1,4 @@
-\* (G) simulation of the model AS WRITTEN; every finished behaviour is printed (EmitBeh) for replay.
+\* (G) simulation of the model of the CURRENT code (repairs a,b,d,e committed in /repo; forwarders as written); every finished behaviour is printed (EmitBeh) for replay.
 SPECIFICATION Spec
 CONSTANTS
   MaxReq = 5
@@ -6,9 +6,10 @@ CONSTANTS
   QMaxEv = 1
   PreLines = 1
   PostLines = 1
-  SeqUnderLock = FALSE
-  RespondAfter = FALSE
+  SeqUnderLock = TRUE
+  RespondAfter = TRUE
   FwdHonoursTerm = FALSE
-  InitViaQueue = FALSE
-  ClearCache = FALSE
+  InitViaQueue = TRUE
+  ClearCache = TRUE
+  DrainKeepsTerm = FALSE
 INVARIANTS TypeOK EmitBeh
